@@ -20,7 +20,8 @@ RULE = ("state = one pool of shared record objects: a vector, the modules of a "
         "vector whose two overhangs coincide, carrying generated feature tables and "
         "(in most runs) reference lists with /citation qualifiers. Rules: assemble a "
         "drawn sub-list in a drawn order (complete, with leftover, with a link "
-        "missing at any position, with a duplicate, with the unusable vector) and "
+        "missing at any position, with a duplicate, with the unusable vector), inspect "
+        "a pool object (is_valid, overhangs, target_sequence) between calls, and "
         "assemble with a fault injected at crash point j = 0..chain length (the j-th "
         "consumed module's -- or for j = chain length the vector's -- fragment "
         "extraction raises InvalidSequence or RuntimeError). Invariant after every "
@@ -75,6 +76,14 @@ class Pool(object):
     def call(self, step):
         """Run one assemble step; -> plain outcome."""
         from moclo import errors
+        if step.get("op") == "inspect":
+            ents = self.vectors + self.modules
+            ent = ents[step["who"] % len(ents)]
+            ok = ent.is_valid()
+            if not ok:
+                return ("inspected", False)
+            return ("inspected", True, str(ent.overhang_start()), str(ent.overhang_end()),
+                    rec.snapshot(ent.target_sequence()))
         vec = self.vectors[step["vector"]]
         mods = [self.modules[i] for i in step["mods"]]
         fault = step.get("fault")
@@ -131,7 +140,11 @@ def _safe_call(pool, step):
 
 
 def _short(o):
-    return (o[0], o[1]["seq"][:40], o[2]) if o[0] == "product" else o
+    if o[0] == "product":
+        return (o[0], o[1]["seq"][:40], o[2])
+    if o[0] == "inspected" and len(o) > 4:
+        return o[:4] + (o[4]["seq"][:40],)
+    return o
 
 
 def check(spec, ctx):
@@ -271,6 +284,10 @@ def make_machine(ctx, name):
             kind = data.draw(st.sampled_from(["invalid", "runtime"]))
             self._do({"vector": 0, "mods": list(data.draw(st.permutations(self._chain()))),
                       "fault": [j, kind]})
+
+        @rule(who=st.integers(0, 7))
+        def inspect(self, who):
+            self._do({"op": "inspect", "who": who})
 
         @precondition(lambda self: self.outcomes and self.outcomes[-1] == "error")
         @rule()
